@@ -670,6 +670,39 @@ fn model_and_conformance(ctx: &Ctx) {
         qgraphs.insert(n, g);
     }
     ctx.extra("abstract_model", json!({"with_chain_identities": {"chain_counts": format!("1..={id_upto}"), "states": total_states, "transitions": total_edges}, "quotient_without_identities": {"chain_counts": "1..=48", "states": q_states, "transitions": q_edges}, "checked": ["invariants on every state", "no non-idle transition without progress", "exit within ceil(N/5)+1 iterations from every state once all finals are visible"]}));
+    // independent cross-check of the abstract model with a standard model checker: the TLA+ transcription
+    // (tla/Reporter.tla) is checked by TLC (same invariants, termination under weak fairness of arrivals) and its
+    // reachable-state count must equal the Rust BFS count (+1 for the terminal state)
+    {
+        let verif_dir = std::env::var("VERIF_DIR").unwrap_or_else(|_| "/verif".to_string());
+        let ns: Vec<usize> = if ctx.tier.thorough() { (1..=id_upto.min(10)).collect() } else { vec![3, 6] };
+        let mut tlc_rows = vec![];
+        for n in ns {
+            let out = std::process::Command::new(format!("{verif_dir}/tla/run_tlc.sh")).arg(n.to_string()).arg(format!("{verif_dir}/.scratch/tlc-{n}-{}", std::process::id())).output();
+            match out {
+                Err(e) => {
+                    ctx.outcome("TLC not runnable (skipped)", 1);
+                    tlc_rows.push(json!({"n": n, "error": e.to_string()}));
+                }
+                Ok(o) => {
+                    let text = String::from_utf8_lossy(&o.stdout).to_string();
+                    let states: Option<usize> = text.split("states=").nth(1).and_then(|t| t.split_whitespace().next()).and_then(|t| t.parse().ok());
+                    let rust = graphs.get(&n).map(|g| g.states.len());
+                    if !o.status.success() || !text.contains(" ok") {
+                        ctx.violation(Violation::new("C10:model-tlc", format!("TLC reports an error for the TLA+ transcription of the reporter model (N={n}): {}", text.chars().take(600).collect::<String>()), json!({"layer": "model", "n": n})));
+                    } else if let (Some(s), Some(r)) = (states, rust) {
+                        if s != r + 1 {
+                            ctx.machinery_error(format!("abstract model mismatch for N={n}: TLC finds {s} states, the Rust BFS {r} (+1 terminal)"));
+                        } else {
+                            ctx.outcome("TLC cross-checks (invariants, termination, equal state count)", 1);
+                        }
+                    }
+                    tlc_rows.push(json!({"n": n, "tlc_distinct_states": states, "rust_bfs_states_plus_terminal": rust.map(|r| r + 1)}));
+                }
+            }
+        }
+        ctx.extra("tlc_cross_check", Value::Array(tlc_rows));
+    }
     // conformance: ALL model paths (idle iterations: at most one, at the start) for small N; transition cover for larger N
     let all_paths_upto = ctx.tier.pick(4usize, 6);
     let mut n_paths = 0u64;
